@@ -129,6 +129,11 @@ func prepare(race bool) (argv []string, cleanup func(), err error) {
 	if modfile != "" {
 		args = append(args, "-modfile="+modfile)
 	}
+	// no inlining of the packages under test: every access keeps the frame (file:line) of the
+	// function it belongs to in race reports, also when the caller is the harness
+	for _, t := range targetPkgs {
+		args = append(args, "-gcflags=0chain.net/"+t+"=-l")
+	}
 	args = append(args, "-ldflags", ld, "-o", bin, workerMain)
 	cmd := exec.Command(goBin(), args...)
 	cmd.Dir = vdir
